@@ -183,6 +183,9 @@ func (c *Ctx) RunCLI(o CLIOpts) *CLIResult {
 		}
 	}
 	res := &CLIResult{Stdout: so.Bytes(), Stderr: se.Bytes(), HarnessTimeout: timedOut}
+	if timedOut {
+		c.Flake("wall-clock guard fired around a CLI child process")
+	}
 	if err != nil {
 		if ee, ok := err.(*exec.ExitError); ok {
 			ws := ee.Sys().(syscall.WaitStatus)
